@@ -1,5 +1,58 @@
-(* C20 — placeholder until the engine theorems are added below. *)
-From WF Require Import model.Base model.EngineBase model.Engine.
-Theorem C20_emit_dead_silent : forall t s, o_dead s = true -> emit t s = (Ok tt, s).
-Proof. intros t s H. unfold emit. now rewrite H. Qed.
-Print Assumptions C20_emit_dead_silent.
+(* C20 — Schedule. Property theorems only.
+   The cron library is not modelled: [next] is any function with the two cron laws (strictly later; gap-free), and the
+   periodic specifications of the harness family (every minute, */15, 0,30, @hourly, @daily) are shown to satisfy them.
+   [iteration latest now0 now1 filter] is the decision of one scheduling iteration of schedule.go: it starts at now0 seeing
+   the latest run (creation time, finished?), its wait ends at now1, then filter and Trigger; Some t = a run created at t.
+   The engine model's scheduler (Engine.sched_body) computes its wake-up instant with exactly this function
+   (C20_engine_deadline) and is compared with the real Schedule on every run of the check. *)
+From WF Require Import model.Base model.Schedule model.EngineBase model.Engine proofs.ScheduleProofs proofs.EngineProps proofs.Examples.
+
+Theorem C20_never_early_core : forall (next : Z -> Z), (forall t, t < next t) -> (forall t u, t <= u < next t -> next u = next t) ->
+  forall latest now0 now1 f t, iteration next latest now0 now1 f = Some t ->
+  t = now1 /\ match latest with Some (l, _) => next l <= t | None => next now0 <= t /\ now0 < t end.
+Proof. exact never_early_core. Qed.
+Print Assumptions C20_never_early_core.
+
+Theorem C20_one_per_tick : forall (next : Z -> Z), (forall t, t < next t) -> (forall t u, t <= u < next t -> next u = next t) ->
+  forall latest now0 now1 f t now0' now1' f' t',
+  iteration next latest now0 now1 f = Some t -> iteration next (Some (t, true)) now0' now1' f' = Some t' -> next t <= t' /\ t < t'.
+Proof. exact one_per_tick. Qed.
+Print Assumptions C20_one_per_tick.
+
+Theorem C20_filter_false_creates_nothing : forall next latest now0 now1, iteration next latest now0 now1 false = None.
+Proof. exact no_run_when_filtered. Qed.
+Print Assumptions C20_filter_false_creates_nothing.
+
+Theorem C20_unfinished_creates_nothing : forall next l now0 now1 f, iteration next (Some (l, false)) now0 now1 f = None.
+Proof. exact no_run_when_unfinished. Qed.
+Print Assumptions C20_unfinished_creates_nothing.
+
+Theorem C20_cron_laws : forall id, (forall t, t < cron_next id t) /\ (forall t u, t <= u < cron_next id t -> cron_next id u = cron_next id t).
+Proof. intros id. split; [apply cron_next_after|apply cron_next_gapfree]. Qed.
+Print Assumptions C20_cron_laws.
+
+Theorem C20_engine_deadline : forall (sc : schedcfg) (lat : option record) (now : Z),
+  cron_next (sd_spec sc) (match lat with Some r => r_created r | None => now end) =
+  sched_wake (cron_next (sd_spec sc)) (option_map r_created lat) now.
+Proof. exact engine_deadline_is_wake. Qed.
+Print Assumptions C20_engine_deadline.
+
+(* Finding F13 (recorded, not repaired): the full statement — never before the first tick after the LATER of the start and the
+   latest run's creation — is refuted, on the decision function and on the engine model (same witness the check replays) *)
+Theorem C20_never_early_refuted :
+  exists l start t, iteration (cron_next 1) (Some (l, true)) start start true = Some t /\ t < cron_next 1 (Z.max start l).
+Proof. exact never_early_refuted. Qed.
+Print Assumptions C20_never_early_refuted.
+
+Theorem C20_never_early_refuted_engine :
+  created_by_scheduler (trace_of f13_cfg f13_ops) = [180000000000] /\ 180000000000 < cron_next 1 180000000000.
+Proof. exact f13_witness. Qed.
+Print Assumptions C20_never_early_refuted_engine.
+
+(* the strongest true restriction: exact whenever the latest run is younger than one tick at the start, or absent *)
+Theorem C20_never_early_partial : forall id latest start now1 f t,
+  match latest with Some (l, _) => start < cron_next id l | None => True end ->
+  iteration (cron_next id) latest start now1 f = Some t ->
+  cron_next id (Z.max start (match latest with Some (l, _) => l | None => start end)) <= t.
+Proof. exact never_early_partial. Qed.
+Print Assumptions C20_never_early_partial.
